@@ -84,18 +84,22 @@ def verifyLoop (n : Nat) (b : Blk) : List Sig → List Sig → CErr → List Sig
 def verifyNewConfirms (n : Nat) (b : Blk) (sigs : List Sig) : List Sig × CErr :=
   verifyLoop n b sigs [] .none
 
-/-- The repair: de-duplicate by RECOVERED NODE, against the miner (header signer), the stored
-    confirms and the confirms accepted so far. -/
+/-- The repair (the diff proposed for validator.go): everything as before, plus one test — a
+    confirmation whose RECOVERED NODE is the miner (header signer), the signer of a stored confirm, or
+    the signer of a confirm accepted earlier in this call, is dropped. -/
 def verifyLoopFixed (n : Nat) (b : Blk) : List Sig → List Sig → CErr → List Sig × CErr
   | [], valid, e => (valid, e)
   | s :: rest, valid, e =>
-    match recover s with
-    | none => verifyLoopFixed n b rest valid .invalidSig
-    | some d =>
-      if ¬ d < n then verifyLoopFixed n b rest valid .invalidSigner
-      else if recover b.hdr = some d ∨ d ∈ b.confirms.filterMap recover ∨ d ∈ valid.filterMap recover then
-        verifyLoopFixed n b rest valid (if e = .none then .existed else e)
-      else verifyLoopFixed n b rest (valid ++ [s]) e
+    if s ∈ valid then
+      verifyLoopFixed n b rest valid (if e = .none then .existed else e)
+    else match recover s with
+      | none => verifyLoopFixed n b rest valid .invalidSig
+      | some d =>
+        if ¬ d < n then verifyLoopFixed n b rest valid .invalidSigner
+        else if isConfirmExist b s then verifyLoopFixed n b rest valid e
+        else if recover b.hdr = some d ∨ d ∈ b.confirms.filterMap recover ∨ d ∈ valid.filterMap recover then
+          verifyLoopFixed n b rest valid e                 -- NEW: "Duplicate confirm signer"
+        else verifyLoopFixed n b rest (valid ++ [s]) e
 
 def verifyNewConfirmsFixed (n : Nat) (b : Blk) (sigs : List Sig) : List Sig × CErr :=
   verifyLoopFixed n b sigs [] .none
